@@ -528,6 +528,10 @@ def run(ctx):
     ctx.rule('C04.6-errors-surface', 'in the functions of this property that can themselves report failure, the Result of one of the repository\'s own fallible functions is never turned into "nothing" or a default (ok(), unwrap_or*, map_or*): an error must surface as an error, not as a value the callee never produced; a rule about what must not be there (exercised on the fixture every run)', floor=0)
     _swallow(ctx, P, 'C04.6-errors-surface', ('edp_client::handshake::', 'edp_client::state_machine::', 'edp_client::digest::', 'edp_client::connection::Connection::connect', 'edp_client::connection::Connection::perform_handshake'))
 
+    from ..families import check_sibling_ctors as _sib
+    ctx.rule('C04.6-config-constructors', 'ConnectionConfig::new and ::new_hidden build the same configuration except for the flag set (hidden nodes do not publish): cookie, names, creation, timeout and EPMD host are initialised alike', floor=1)
+    _sib(ctx, P, 'C04.6-config-constructors', 'edp_client::connection::ConnectionConfig', ['edp_client::connection::ConnectionConfig::new', 'edp_client::connection::ConnectionConfig::new_hidden'], {'flags'})
+
 
 def check_digest(ctx):
     B = ctx.body('edp_client::digest::compute_digest')
